@@ -3,6 +3,9 @@ import hashlib
 import json
 import os
 import shutil
+import subprocess
+import sys
+import time
 
 from hypothesis import strategies as st
 
@@ -16,7 +19,7 @@ RULE = (
     "instants/durations/JSON data from the shared generators; written bucket after bucket or in turns, a few events per bucket per round); the peewee handle is closed and SqliteStorage(profile) is constructed without a file path, which is the "
     "only way the migration runs. Oracle: the new store lists the same bucket ids; per bucket equal type/client/hostname/name/data and created equal as an instant; "
     "events equal as a multiset of (instant floored to ms, duration us, data) - none dropped, none duplicated (ids may be renumbered); the legacy file's logical "
-    "contents (every row of every table) and its SHA-256 are unchanged and no journal/WAL sibling is left. About one bucket in ten is large (400..1300 events, 1..7 per instant, touching or zero-length) and in half the cases a legacy database of the OTHER profile with different contents lies next to it. Non-trivial = >= 1 bucket with >= 2 events and a non-empty data dict, or a large bucket."
+    "contents (every row of every table) and its SHA-256 are unchanged and no journal/WAL sibling is left. A quarter of the buckets carry a creation time without offset (read as UTC by both stores), 3 cases in 5 run in a local time zone other than UTC, and in a third of the cases the migration runs in a child process that reads every bucket and exits normally, the comparison being made by the next process to open the store. About one bucket in ten is large (400..1300 events, 1..7 per instant, touching or zero-length) and in half the cases a legacy database of the OTHER profile with different contents lies next to it. Non-trivial = >= 1 bucket with >= 2 events and a non-empty data dict, or a large bucket."
 )
 ASSUMPTIONS = [
     "event ids are not promised to survive the migration",
@@ -66,11 +69,35 @@ def strategy(draw, tier="quick"):
                 "data": draw(st.one_of(st.none(), st.just({"k": {"n": [1, None, "ü"]}}), gen.json_data(4).filter(lambda d: len(d) > 0))),
                 "created_us": draw(gen.instants()),
                 "created_off": draw(gen.offsets()),
+                "created_naive": draw(st.integers(0, 3)) == 0,  # the watcher passed datetime.utcnow(): no offset in the legacy file, read as UTC by both stores
                 "events": evs,
             }
         )
     decoy = draw(st.one_of(st.none(), st.integers(0, 3)))  # also put a legacy database of the OTHER profile next to it
-    return {"testing": draw(st.booleans()), "buckets": buckets, "decoy": decoy, "interleave": draw(st.sampled_from([0, 0, 1, 2, 7]))}
+    return {
+        "testing": draw(st.booleans()),
+        "buckets": buckets,
+        "decoy": decoy,
+        "interleave": draw(st.sampled_from([0, 0, 1, 2, 7])),
+        "tz": draw(st.sampled_from([None, None, "JST-9", "EST5EDT", "NZST-12NZDT,M9.5.0,M4.1.0/3"])),  # the process's local time zone
+        "restart": draw(st.integers(0, 2)) == 0,  # migrate in a child process that reads everything and exits; judge what the next process finds
+    }
+
+
+CHILD = r"""
+import os, sys
+from vlib import env
+env.init()
+os.environ["XDG_DATA_HOME"] = os.environ["C14_HOME"]
+from aw_datastore import Datastore
+from aw_datastore.storages import SqliteStorage
+ds = Datastore(SqliteStorage, testing=(sys.argv[1] == "1"))
+n = 0
+for bid in ds.buckets():
+    n += len(ds[bid].get(limit=-1))
+    ds[bid].get_eventcount()
+print("MIGRATED", n, flush=True)
+"""
 
 
 def _events(b):
@@ -98,6 +125,10 @@ def run_case(case):
     home = env.fresh_dir()
     old_home = os.environ.get("XDG_DATA_HOME")
     os.environ["XDG_DATA_HOME"] = home
+    old_tz = os.environ.get("TZ")
+    if case.get("tz"):
+        os.environ["TZ"] = case["tz"]
+        time.tzset()
     new = None
     try:
         if case.get("decoy") is not None:
@@ -116,7 +147,10 @@ def run_case(case):
                     kw["name"] = b["name"]
                 if b["data"] is not None:
                     kw["data"] = json.loads(json.dumps(b["data"]))
-                h = ds.create_bucket(b["id"], type=b["type"], client=b["client"], hostname=b["hostname"], created=gen.dt_at(b["created_us"], b["created_off"]), **kw)
+                created = gen.dt_at(b["created_us"], b["created_off"])
+                if b.get("created_naive"):
+                    created = gen.dt_utc(b["created_us"]).replace(tzinfo=None)
+                h = ds.create_bucket(b["id"], type=b["type"], client=b["client"], hostname=b["hostname"], created=created, **kw)
                 handles.append(h)
                 if _events(b) and not case.get("interleave"):
                     h.insert([stores.mk_event(Event, e) for e in _events(b)])
@@ -143,7 +177,14 @@ def run_case(case):
         sha_before = _sha(legacy)
         sib_before = set(os.listdir(ddir))
         rows_before = stores.fresh_dump(legacy)
-        with sut("SqliteStorage(testing) next to a legacy database (migration)"):
+        if case.get("restart"):
+            # the migration runs in a process of its own, which then reads every bucket as any user of the data would and exits
+            # normally; what counts is what the NEXT process finds in the new store
+            envv = dict(os.environ, VERIF_REPO=env.REPO, PYTHONPATH=env.VERIF, PYTHONHASHSEED="0", C14_HOME=home)
+            pr = subprocess.run([sys.executable, "-B", "-c", CHILD, "1" if testing else "0"], env=envv, cwd=env.VERIF, stdout=subprocess.PIPE, stderr=subprocess.STDOUT, text=True, timeout=600)
+            if pr.returncode != 0 or "MIGRATED" not in pr.stdout:
+                raise Violation(f"migration in a child process failed (exit {pr.returncode}): {pr.stdout[-600:]}")
+        with sut("SqliteStorage(testing) next to a legacy database (migration)" if not case.get("restart") else "opening the migrated store in the next process"):
             new = Datastore(SqliteStorage, testing=testing)
         with sut("reading the migrated store"):
             got = new.buckets()
@@ -199,6 +240,12 @@ def run_case(case):
             os.environ.pop("XDG_DATA_HOME", None)
         else:
             os.environ["XDG_DATA_HOME"] = old_home
+        if case.get("tz"):
+            if old_tz is None:
+                os.environ.pop("TZ", None)
+            else:
+                os.environ["TZ"] = old_tz
+            time.tzset()
         shutil.rmtree(home, ignore_errors=True)
     nt = any(len(_events(b)) >= 2 and b["data"] for b in case["buckets"]) or any(b.get("many") for b in case["buckets"])
     classes = ["testing" if testing else "normal", f"buckets_{len(case['buckets'])}"]
@@ -210,6 +257,12 @@ def run_case(case):
         classes.append("other_profile_legacy_db_present")
     if case.get("interleave") and len(case["buckets"]) > 1:
         classes.append("buckets_written_in_turns")
+    if case.get("restart"):
+        classes.append("migrated_in_a_child_process_then_reopened")
+    if case.get("tz"):
+        classes.append("local_zone_not_utc")
+    if any(b.get("created_naive") for b in case["buckets"]):
+        classes.append("created_without_offset")
     return {"nontrivial": nt, "classes": classes, "evals": 1 + sum(len(_events(b)) for b in case["buckets"])}
 
 
